@@ -102,7 +102,7 @@ func vfRecorderSpecV(timed bool, version int) *core.Spec {
 				GuardSource: &core.ActionSource{Interpreter: "ecmascript", Source: vfGuardJS}}}}},
 			// a guard that fails takes the machine here; it listens just as it did before
 			"error": {Branches: &core.Branches{Type: "message", Branches: []*core.Branch{{Pattern: "?m", Target: "rec",
-				GuardSource: &core.ActionSource{Interpreter: "ecmascript", Source: vfGuardJS}}}}},
+				GuardSource: &core.ActionSource{Interpreter: "ecmascript", Source: strings.Replace(vfGuardJS, "m.boom[mid]", "false", 1)}}}}},
 			"rec": {
 				ActionSource: &core.ActionSource{Interpreter: "ecmascript", Source: src},
 				Branches: &core.Branches{Type: "bindings", Branches: []*core.Branch{
@@ -392,14 +392,22 @@ func vfPredict(msg map[string]interface{}, present map[string]bool, recorders ma
 						failAfter = int(f)
 					}
 				}
-				if failAfter >= 0 || poisoned[mid] {
-					continue // a failing action emits nothing (and records nothing: its bindings are discarded)
+				if poisoned[mid] {
+					continue
+				}
+				if bm, ok := mm["boom"].(map[string]interface{}); ok && bm[mid] == true && !poisoned["@error:"+mid] {
+					// the guard of the start node failed (before it looked at anything else):
+					// consumed, not recorded; the machine now listens at its error node (whose
+					// guard does not know "boom")
+					poisoned["@error:"+mid] = true
+					continue
 				}
 				if sk, ok := mm["skip"].(map[string]interface{}); ok && sk[mid] == true {
-					continue // rejected by the guard: consumed, not recorded
+					continue // rejected by the guard: consumed, not recorded, the machine stays where it is
 				}
-				if bm, ok := mm["boom"].(map[string]interface{}); ok && bm[mid] == true {
-					continue // the guard failed: consumed, not recorded, the machine listens on at its error node
+				delete(poisoned, "@error:"+mid) // whatever the action does, the machine is back at start afterwards
+				if failAfter >= 0 {
+					continue // a failing action emits nothing (and records nothing: its bindings are discarded)
 				}
 				md.seen[mid] = append(md.seen[mid], id)
 				if fw, ok := mm["fwd"].(map[string]interface{}); ok {
@@ -413,8 +421,11 @@ func vfPredict(msg map[string]interface{}, present map[string]bool, recorders ma
 						}
 					}
 				}
-				// ("wreck": records and emits as told, then a failing step takes the machine to
-				// its error node - where it listens on)
+				if wm, ok := mm["wreck"].(map[string]interface{}); ok && wm[mid] == true {
+					// records and emits as told, then a failing step takes the machine to its
+					// error node - where it listens on
+					poisoned["@error:"+mid] = true
+				}
 				if nm, ok := mm["nan"].(map[string]interface{}); ok && nm[mid] == true {
 					poisoned[mid] = true
 					continue // records the message, then returns an unencodable state without emitting
@@ -451,6 +462,9 @@ func vfPredict(msg map[string]interface{}, present map[string]bool, recorders ma
 	}
 	sort.Strings(md.batches)
 	if len(poison) > 0 {
+		for k := range poison[0] {
+			delete(poison[0], k)
+		}
 		for k := range poisoned {
 			poison[0][k] = true
 		}
